@@ -1,4 +1,5 @@
 """C15 - blotter views are coherent with the orders placed (simulation domain; live-mode adoption in C11)."""
+import common
 import simcheck
 
 META = {
@@ -220,9 +221,22 @@ def run(res, tier, seed, model_ok, search):
     for v in sub.violations:
         if v["signature"] in ("live-order-not-in-live-list", "duplicate-in-live-list", "lookup:id", "lookup:bet-id", "live-list-holds-unknown-order", "live-processing-crashed"):
             res.violations.append(v)
+    # the other exchange: real BetdaqOrder objects in a real blotter, polled updates through process_betdaq_current_orders while
+    # requests are in flight - an order leaves the live list when it is complete and not before
+    import betdaqdomain
+    sub = common.Result()
+    betdaqdomain.run(sub, tier, seed, False, search)
+    res.evaluations += sub.evaluations
+    res.distribution["betdaq-histories"] += sub.evaluations
+    for v in sub.violations:
+        if v["signature"] in ("live-order-not-in-live-list", "complete-order-in-live-list", "betdaq-processing-crashed"):
+            res.violations.append(v)
 
 
 def replay(payload):
+    if (payload.get("replay") or {}).get("domain") == "betdaq":
+        import betdaqdomain
+        return betdaqdomain.replay(payload)
     if "scenario" not in (payload.get("replay") or {}):
         from props import C11
         return C11.replay(payload)        # a live-domain history
